@@ -465,6 +465,11 @@ def _try_candidates(res, h, inputs, hyps_base, neg, obname, key, timeout_ms, pro
             grid.append(i_ * (2 ** 40) == z3.ToReal(z3.Int(f'grid!{n_}')))
     if grid:
         variants.append([solve.MARGIN == 0] + rb + grid)
+    # generic position: every real input at least 1/4 away from zero (a counterexample that needs a non-zero offset is otherwise
+    # often returned with an offset of 1e-18, which the replay tolerance swallows)
+    away = [z3.Or(i_ >= z3.RealVal('1/4'), i_ <= -z3.RealVal('1/4')) for n_, k_, i_ in inputs if k_ == 'real']
+    if away:
+        variants.insert(1, [solve.MARGIN == 0] + rb + away)
     tried = 0
     for extra in variants:
         for seed in (0, 7):
@@ -474,7 +479,7 @@ def _try_candidates(res, h, inputs, hyps_base, neg, obname, key, timeout_ms, pro
                 subs = [(v, z3.ToReal(z3.Int(str(v) + '_int'))) for v in ints]
                 fs = [z3.substitute(f, *subs) for f in fs]
                 inp = [(n_, k_, (z3.substitute(i_, *subs) if k_ in ('real', 'int') else i_)) for n_, k_, i_ in inputs]
-            r, mdl = solve.check_sat(fs, timeout_ms if extra is not variants[-1] or not grid else min(timeout_ms, 8000), seed=seed)
+            r, mdl = solve.check_sat(fs, timeout_ms if not (grid and extra and extra[-1] is grid[-1]) else min(timeout_ms, 8000), seed=seed)
             if r != 'sat':
                 continue
             vals = concrete_inputs(inp, mdl)
